@@ -220,6 +220,7 @@ def flat_view(n):
     v = dict(name=n["name"], modifier=n["modifier"], returnType=n["returnType"], argTypes=norm_list(n["argTypes"]), argValues=norm_list(n["argValues"]),
              superClass=n["superClass"], interfaces=norm_list(n["interfaces"]), dataType=n["dataType"], scope=n["scope"], value=n["value"],
              throws=norm_list(n["throws"]), annotations=norm_list(n["annotations"]))
+    v["hasAccess"] = "true" if n.get("hasAccess") else "false"
     jd = n.get("javadoc")
     if jd is None:
         v["tags"] = None
